@@ -2,9 +2,11 @@ package diff
 
 import (
 	"fmt"
+	"math/rand"
 	"os"
 	"strings"
 	"testing"
+	"verif/lib/splicegen"
 
 	"verif/lib/host"
 	"verif/lib/prog"
@@ -46,4 +48,42 @@ func TestProbe(t *testing.T) {
 		}
 		fmt.Printf("[%s] ledger %s\n", e, tr.Ledger[:12])
 	}
+}
+
+func TestGrammarExplore(t *testing.T) {
+	if os.Getenv("DIFF_EXPLORE") == "" {
+		t.Skip()
+	}
+	r := rand.New(rand.NewSource(3))
+	shown := 0
+	kinds := map[string]int{}
+	splicegen.GrammarDebug = func(form, src string, errs []error, err error) {
+		for _, e := range errs {
+			kinds[fmt.Sprintf("%s %T %v", form, e, e)]++
+		}
+		if len(errs) == 0 {
+			kinds[form+" "+firstLine(fmt.Sprint(err), 300)]++
+		}
+		if shown < 2 {
+			shown++
+			fmt.Println("=== REJECT", form, "\n", src)
+			fmt.Println(err)
+		}
+	}
+	defer func() {
+		for k, v := range kinds {
+			fmt.Println(v, k)
+		}
+	}()
+	for i := 0; i < 300; i++ {
+		h, ok := splicegen.Grammar(r)
+		if !ok && shown < 4 {
+			shown++
+			// re-check to show errors
+			for _, s := range h.Steps {
+				_ = s
+			}
+		}
+	}
+	fmt.Println(splicegen.GrammarStats())
 }
